@@ -120,6 +120,27 @@ CHECKS = {
 		note='File names exclude newline/NUL// and, for list files, leading/trailing blanks. In-process CLI via CliRunner.',
 		design='DESIGN.md §4 C16',
 	),
+	'C08': dict(
+		category='exploration',
+		technique='Hypothesis-generated worlds x batch plans (order/multiset x channel x gzip x file names x -c x progress x format, plus API chunk sizes); metamorphic row equality across plans + predicted row from R-KMER -> R-JAC -> R-TAX',
+		text='For each generated database and query set, 2-3 batch plans are executed (in-process CLI, csv/json/archive, positional / list-file / signature-file input, any order with duplicates, gzip, nested directories, nasty names, -c 1..16, progress on/off; API with chunk sizes) and every output row must be present once per input in input order, carry the expected label and equal the model row of that genome - which makes it identical in every context; rows of the same genome are also compared directly across plans.',
+		note='Process-pool scheduling under -c is sampled (C13 owns completion order at the API). Labels exclude newline/NUL//.',
+		design='DESIGN.md §4 C08',
+	),
+	'C11': dict(
+		category='exploration',
+		technique='Hypothesis-generated real and synthetic QueryResults x 3 exporters; parse-back / field-by-field comparison with the results object, cross-format agreement, archive round trip (same and fresh session)',
+		text='Result sets produced by real strict/non-strict queries on generated worlds and synthetic result sets assembled from generated ClassifierResults (arbitrary Unicode labels incl. commas/quotes/LF/CRLF, warnings, errors, missing files, drawn params incl. chunksize None, arbitrary timestamps and extra JSON) are exported as CSV, JSON and archive; CSV is parsed back cell by cell, JSON must be strict JSON carrying the same data and agree with the CSV, and the archive must read back equal (deep comparison and ==) on the same and on a fresh session.',
+		note='Lone CR is excluded from generated text (csv.writer with LF terminator cannot round-trip it; "newlines" read as LF/CRLF). Labels are str. One genuine defect found and repaired (archive with chunksize None unreadable).',
+		design='DESIGN.md §4 C11',
+	),
+	'C17': dict(
+		category='exploration',
+		technique='Hypothesis-generated genome/signature sets incl. zero and tied distances x labels with Newick metacharacters; own Newick parser + UPGMA validity predicate (average-linkage identity, monotone heights, greedy validity) + own UPGMA when unique',
+		text='The tree command output is parsed with an independent Newick parser and checked to be a rooted strictly binary ultrametric tree with exactly the input labels and non-negative branch lengths whose every internal node height equals the average R-JAC distance between its two child clusters (valid under any tie-breaking), with monotone heights and no cheaper available merge skipped; when merges are separated by a margin the merge sets and heights equal the harness\'s own O(n^3) UPGMA.',
+		note='Numeric tolerance 1e-5 per branch (8 printed digits). Duplicate labels only structurally. One genuine defect found and repaired (integer IDs).',
+		design='DESIGN.md §4 C17',
+	),
 }
 
 NOT_APPLICABLE = {}
